@@ -108,7 +108,8 @@ CHECKS["C06"] = dict(
          "trace validation decides whether some placement of "
          "the commits explains all answers and reads. Node-level replay decides the interaction of applies, echoes, snapshots "
          "and restarts for every order the model allows.",
-    note="cluster nodes are mini-node processes with the real start-up wiring and real gRPC services (no HTTP layer); Raft "
+    note="cluster nodes are mini-node processes with the real start-up wiring and real gRPC services; writes enter in turn "
+         "through the node's real HTTP handler (in-process application), its real gRPC service and ConfigRoute; Raft "
          "is abstracted to one committed sequence; clients are sequential; a leader is only taken away at quiescent moments "
          "except in the dedicated scenarios; three findings are listed as known (two in async-raft-ext 0.6.3: commit without "
          "majority on the bootstrap leader, entries skipped at a leader change; one in ConfigActor: late echo overwrites)",
@@ -215,7 +216,9 @@ CHECKS["C13"] = dict(
          "clock and a subset on a real NamingActor in real time.  'Then everywhere': four HTTP instances of one service on a "
          "real three-node cluster stop beating (one registered before, three after the nodes' 15 s snapshot pull; two of "
          "them placed so that a removal and an unhealthy mark fall into one check tick); every node is sampled ~3 times per "
-         "second and TLC evaluates OwnerNotEarly / OwnerInTime / Everywhere / NotBefore over the observed state changes; a second "
+         "second and TLC evaluates OwnerNotEarly / OwnerInTime / Everywhere / NotBefore over the observed state changes; a fifth "
+         "instance is registered through the real HTTP handler and keeps beating through PUT /instance/beat via changing nodes "
+         "until the sampling ends - no node may ever report it unhealthy or missing (NeverWhileBeating); a second "
          "cluster run kills the node responsible for a fresh instance and requires the survivor that takes over to expire it.",
     note="H = 1, T = 3 ticks in generation; cluster leg: one schedule, time-outs 4 s / 9 s, lateness bound 6.5 s on the "
          "responsible node (the implementation adds 3 s to both time-outs and sweeps every 2 s), 3.5 s to reach the others",
@@ -225,13 +228,18 @@ CHECKS["C19"] = dict(
     engine="sequence",
     technique="TLA+ spec Sequence.tla (named-sequence range protocol with SeqGroup transcription; history-id stamping with "
               "batch marks, leader change, replay), TLC invariants Unique/Monotone/BelowCounter, trace validation of real "
-              "SeqGroup protocol runs and of recorded id streams of a real single-member Raft node",
+              "SeqGroup protocol runs and of recorded id streams of a real single-member Raft node; SnapInstall.tla behaviours "
+              "(sequence-biased) replayed on a real leader + follower node pair",
     text="TLC checks uniqueness and per-node monotonicity for 2 nodes with in-flight range requests, and for history ids "
          "across leader change and log replay (a skipped batch mark and out-of-order responses are negative controls). "
          "Bound to the code by (a) action-by-action validation of protocol runs on the real SeqGroup objects, where the "
          "spec re-computes every id, and (b) black-box validation of the ids a real node returns under concurrent "
-         "requests, publish bursts crossing the 100-id batch, compactions and restarts.",
-    note="one real Raft member; multi-node draws and leader change are model-level plus replicated-counter semantics "
+         "requests, publish bursts crossing the 100-id batch, compactions and restarts, and (c) SnapInstall.tla behaviours over "
+         "a sequence-biased alphabet replayed on a real leader node and a real follower node: a follower that already holds "
+         "a counter is caught up by a snapshot installed into its RUNNING state machine and must end with the leader's "
+         "next-free values (a lower value would be issued twice once that node leads).",
+    note="one real Raft member for the id streams; the two-node install leg hand-carries entries and chunks (as C08); "
+         "multi-node draws are model-level plus replicated-counter semantics "
          "(C07); response reordering inside the actor is a stated scheduling assumption",
     design_ref="5 C19")
 
@@ -239,11 +247,15 @@ CHECKS["C14"] = dict(
     engine="ownership",
     technique="TLA+ spec Ownership.tla; TLC enumerates the complete finite space (57 views x 60 residues) and every view is "
               "installed in real nodes (one process per live local id, genuine liveness check) where ownership and routing "
-              "are compared with the abstract requirement",
+              "are compared with the abstract requirement; plus a real 3-node cluster (lowest node killed, genuine 15 s expiry) whose "
+              "ownership and routing are judged before and after forwarded HTTP registrations",
     text="The space is finite: cluster sizes 1..5, every alive subset, every hash residue of lcm(1..5). TLC checks "
          "ExactlyOneOwner and RoutingAgrees on all of it (the two pre-fix formulas are negative controls), and every view "
          "is replayed on the real node wiring for every live local id: the registry actor's range, the node manager's "
-         "range and route_addr for 60 keys.",
+         "range and route_addr for 60 keys. Cluster leg: three real node processes; node 1 is killed and expires on the others by "
+         "the genuine liveness rule; 36 HTTP registrations (real handler) are sent to both survivors, each forwards part of them "
+         "to the other over gRPC; the survivors' claims and routes for 12 keys must satisfy ExactlyOneOwner / RoutingAgrees "
+         "and name the specification's owner before and after every round of traffic.",
     note="views installed through UpdateNodes/ActiveNode + an expiry hook that runs the real check_node_status; "
          "node ids are 1..n", design_ref="5 C14")
 
